@@ -473,6 +473,10 @@ pub struct FaultPt {
     /// replay: only this failing call number
     #[serde(default)]
     pub only_k: Option<u64>,
+    /// false: the derivative fails at call k only; true: at call k and at every later call (each with its own message) -
+    /// the error that is surfaced must still be the FIRST one, msg_k
+    #[serde(default)]
+    pub persistent: bool,
 }
 pub struct Faults;
 fn fault_cfg(solver: Solver, config: usize) -> Cfg {
@@ -482,13 +486,13 @@ fn fault_cfg(solver: Solver, config: usize) -> Cfg {
     let len = [0.6, 2.2, 5.5][config] * k * trial;
     Cfg { tol: [1e-3, 1e-5, 1e-4][config], dtmin, dtmax, t0: 0.1, t1: 0.1 + len }
 }
-fn fault_rhs(fail_at: Option<u64>) -> (Rhs<f64>, Rc<Cell<u64>>) {
+fn fault_rhs(fail_at: Option<u64>, persistent: bool) -> (Rhs<f64>, Rc<Cell<u64>>) {
     let n = Rc::new(Cell::new(0u64));
     let n2 = n.clone();
     (
         Rc::new(move |t, y| {
             n2.set(n2.get() + 1);
-            if Some(n2.get()) == fail_at {
+            if Some(n2.get()) == fail_at || persistent && fail_at.map_or(false, |k| n2.get() > k) {
                 return Err(format!("verif-fault-at-call-{}", n2.get()));
             }
             Ok(vec![-0.8 * y[0] + 0.5 * (2.0 * t).sin(), 0.3 * y[0] - y[1] * y[1] * 0.2])
@@ -502,13 +506,14 @@ impl Check for Faults {
         "derivative-faults"
     }
     fn rule(&self) -> String {
-        "for each solver x 3 configurations a reference run counts N derivative calls; then for EVERY k in 1..=N the derivative returns Err(msg_k) at call k: items before the failure are a prefix of the reference run, then exactly one Err item carrying msg_k, then None on 3 further next() calls; collect_vec on a fresh run returns the same error; after normal completion next() keeps returning None; states = fault positions, transitions = runs; signature = (solver, where in the protocol the fault landed: before the first item / mid-path / after the last item)".into()
+        "for each solver x 3 configurations a reference run counts N derivative calls; then for EVERY k in 1..=N the derivative returns Err(msg_k) at call k (one-shot), or at call k and with their own messages at all later calls (persistent: the FIRST error is the one that must be carried): items before the failure are a prefix of the reference run, then exactly one Err item carrying msg_k, then None on 3 further next() calls; collect_vec on a fresh run returns the same error; after normal completion next() keeps returning None; states = fault positions, transitions = runs; signature = (solver, where in the protocol the fault landed: before the first item / mid-path / after the last item)".into()
     }
     fn points(&self, _t: Tier) -> Vec<FaultPt> {
         let mut v = vec![];
         for &solver in &ALL_SOLVERS {
             for config in 0..3 {
-                v.push(FaultPt { solver, config, only_k: None });
+                v.push(FaultPt { solver, config, only_k: None, persistent: false });
+                v.push(FaultPt { solver, config, only_k: None, persistent: true });
             }
         }
         v
@@ -519,7 +524,7 @@ impl Check for Faults {
         let subj = subject(p.solver);
         let y0 = [0.9, -0.2];
         let lim = Limits { max_calls: 1_000_000, max_items: 100_000, extra_next: 3 };
-        let (rhs, _) = fault_rhs(None);
+        let (rhs, _) = fault_rhs(None, false);
         let reference = solve::<f64>(p.solver, DimMode::Static, &cfg, &y0, rhs, &lim);
         if reference.panic.is_some() || !matches!(reference.end, End::Done) {
             o.viol(&subj, "reference-run-completes", format!("{:?}: {:?} {:?}", p, reference.end, reference.panic));
@@ -537,12 +542,12 @@ impl Check for Faults {
         o.executions = 1;
         o.states = n;
         for k in ks {
-            let (rhs, _) = fault_rhs(Some(k));
+            let (rhs, _) = fault_rhs(Some(k), p.persistent);
             let out = solve::<f64>(p.solver, DimMode::Static, &cfg, &y0, rhs, &lim);
             o.executions += 2;
             o.transitions += 2;
             let msg = format!("verif-fault-at-call-{}", k);
-            let ctx = || format!("{:?} fault at call {} of {}", p, k, n);
+            let ctx = || format!("{:?} fault at call {}{} of {}", p, k, if p.persistent { " and at every later call" } else { "" }, n);
             let mut bad: Option<(&str, String)> = None;
             if let Some(m) = &out.panic {
                 bad = Some(("never-panics", format!("{}: {}", ctx(), m)));
@@ -559,7 +564,7 @@ impl Check for Faults {
             }
             if bad.is_none() {
                 USE_COLLECT_VEC.with(|c| c.set(true));
-                let (rhs, _) = fault_rhs(Some(k));
+                let (rhs, _) = fault_rhs(Some(k), p.persistent);
                 let cv = solve::<f64>(p.solver, DimMode::Static, &cfg, &y0, rhs, &lim);
                 USE_COLLECT_VEC.with(|c| c.set(false));
                 match &cv.end {
@@ -570,11 +575,11 @@ impl Check for Faults {
             sigs.insert(format!("{}|fault:{}", p.solver.name(), if out.items.is_empty() { "before-first-item" } else if out.items.len() == reference.items.len() { "after-last-item" } else { "mid-path" }));
             if let Some((clause, detail)) = bad {
                 o.viol(&subj, clause, detail);
-                o.replay_point = Some(serde_json::to_value(FaultPt { solver: p.solver, config: p.config, only_k: Some(k) }).unwrap());
+                o.replay_point = Some(serde_json::to_value(FaultPt { solver: p.solver, config: p.config, only_k: Some(k), persistent: p.persistent }).unwrap());
                 break;
             }
         }
-        o.sig = format!("{}|config{}|{} fault positions", p.solver.name(), p.config, n);
+        o.sig = format!("{}|config{}|{}|{} fault positions", p.solver.name(), p.config, if p.persistent { "persistent" } else { "one-shot" }, n);
         o.sigs = sigs.into_iter().collect();
         o
     }
